@@ -235,8 +235,11 @@ def run_shards(mod, tier, seed):
     per = max(1, int(per * scale))
     phases = getattr(mod, "PHASES", ["main"])
     jobs = []
+    weights = getattr(mod, "PHASE_WEIGHTS", None)
     for p_i, phase in enumerate(phases):
         n = per // len(phases) if len(phases) > 1 else per
+        if weights:
+            n = int(round(per * weights[phase]))
         for s in range(shards):
             jobs.append((mod.__name__, tier, seed, s, max(1, n), phase))
     nproc = int(os.environ.get("VERIF_PROCS", str(min(16, os.cpu_count() or 1))))
